@@ -190,7 +190,42 @@ struct InvRef {
     id: usize,
 }
 
+/// Polls the read; after `left` further `Pending`s the read is dropped where
+/// it is suspended (what a timeout or `select!` inside an executor does).
+struct AbandonAfter<'a> {
+    inner: Option<std::pin::Pin<Box<dyn Future<Output = Val> + Send + 'a>>>,
+    left: u8,
+}
+
+impl Future for AbandonAfter<'_> {
+    type Output = Option<Val>;
+    fn poll(
+        mut self: std::pin::Pin<&mut Self>,
+        cx: &mut std::task::Context<'_>,
+    ) -> std::task::Poll<Option<Val>> {
+        let this = &mut *self;
+        let Some(f) = this.inner.as_mut() else {
+            return std::task::Poll::Ready(None);
+        };
+        match f.as_mut().poll(cx) {
+            std::task::Poll::Ready(v) => {
+                this.inner = None;
+                std::task::Poll::Ready(Some(v))
+            }
+            std::task::Poll::Pending if this.left == 0 => {
+                this.inner = None;
+                std::task::Poll::Ready(None)
+            }
+            std::task::Poll::Pending => {
+                this.left -= 1;
+                std::task::Poll::Pending
+            }
+        }
+    }
+}
+
 impl InvRef {
+    fn node(&self) -> u32 { self.sh.log.lock()[self.id].node }
     fn attempt(&self, callee: u32) {
         self.sh.log.lock()[self.id].attempted.push(callee);
     }
@@ -342,6 +377,29 @@ fn eval_expr<'a, C: Config>(
                     }
                 }
                 acc
+            }
+            Expr::Trap(n, s) => {
+                let v = read(inv, te, *n, *s).await;
+                assert!(
+                    truthy(v),
+                    "partial executor of node {} ran although its guard {}.{} is false (a from-scratch evaluation never asks for it)",
+                    inv.node(),
+                    n,
+                    s
+                );
+                v
+            }
+            Expr::Abandon(n, s, k) => {
+                inv.attempt(*n);
+                let fut = AbandonAfter {
+                    inner: Some(Box::pin(query_node(&inv.sh, te, *n))),
+                    left: *k,
+                };
+                if let Some(v) = fut.await {
+                    inv.record(*n, &v);
+                    let _ = slot_of(&v, *s);
+                }
+                0
             }
             Expr::Detached(n, s) => {
                 let te2 = te.clone();
